@@ -163,6 +163,10 @@ def spell(kind, root, cwd, tree):
     raise ValueError(kind)
 
 
+class OutOfDomain(Exception):
+    pass
+
+
 def create(case, env, root, scr, tag):
     """Create the metafile in the given environment; returns Meta."""
     cwds = {"scratch": scr, "parent": os.path.dirname(root), "elsewhere": os.path.join(scr, "elsewhere")}
@@ -182,6 +186,9 @@ def create(case, env, root, scr, tag):
     for k in ("announce", "url_list", "httpseeds"):
         if env[k]:
             opts[k] = list(env[k])
+    if case["route"] == "cli" and any(os.path.exists(os.path.join(cwd, u)) for k in ("announce", "url_list", "httpseeds") for u in opts.get(k, [])):
+        # a "url" that names an existing path: the documented recovery of a swallowed content path would pick it up - not a url
+        raise OutOfDomain()
     old = os.getcwd()
     os.chdir(cwd)
     try:
@@ -259,6 +266,8 @@ def run_case(case):
                         os.symlink(link["target"], lp)
         try:
             mb = create(case, base, root, scr, "base")
+        except OutOfDomain:
+            return Outcome(None, False, ["url-names-an-existing-path"])
         except Exception as e:
             return Outcome(Violation("C08:base-exception:%s" % type(e).__name__, "create in the canonical environment raised %r" % (e,)), False)
         target.reset()
@@ -272,6 +281,8 @@ def run_case(case):
         applied = spell(var["spelling"], root2, scr, tree) is not None
         try:
             mv = create(case, var, root2, scr, "var")
+        except OutOfDomain:
+            return Outcome(None, False, ["url-names-an-existing-path"])
         except Exception as e:
             return Outcome(Violation("C08:variant-exception:%s:%s" % (var["spelling"] if applied else "abs", type(e).__name__),
                                      "create in the variant environment raised %r" % (e,)), True)
